@@ -142,12 +142,19 @@ package parser
 //@   ensures p.Includes == old(p.Includes)
 //@   modifies p.Thrift, p.Annotations, Annotation.Values
 
+// Enum values (loop transition clauses): an iteration appends at most one value and leaves the earlier ones alone; a
+// value written without '= n' is 0 for the first and previous+1 otherwise; an explicit value is what strconv.ParseInt
+// makes of the capture text pegText returned for it.
 //@ func (p *parser) parseEnum(node *node32) (err error)
 //@   requires p != nil && node != nil && wfPEG(p)
 //@   ensures err == nil ==> len(p.Enums) == old(len(p.Enums)) + 1 && p.Annotations != nil
 //@   ensures p.Includes == old(p.Includes)
 //@   modifies p.Thrift, p.Annotations, Annotation.Values
 //@   loop 1 invariant err == nil && (n == nil || pegowner(n) == ruleEnum) && forall k int :: 0 <= k && k < len(values) ==> values[k] != nil
+//@   loop 1 step len(values) == pre(len(values)) || len(values) == pre(len(values)) + 1
+//@   loop 1 step forall k int :: 0 <= k && k < pre(len(values)) ==> values[k] == pre(values[k]) && values[k].Value == pre(values[k].Value)
+//@   loop 1 step len(values) == pre(len(values)) + 1 && ncalls("strconv.ParseInt") == pre(ncalls("strconv.ParseInt")) ==> values[len(values)-1].Value == ite(len(values) == 1, 0, values[len(values)-2].Value + 1)
+//@   loop 1 step len(values) == pre(len(values)) + 1 && ncalls("strconv.ParseInt") != pre(ncalls("strconv.ParseInt")) ==> values[len(values)-1].Value == callret("strconv.ParseInt", 0) && callarg("strconv.ParseInt", 0) == callret("p.pegText", 0)
 
 //@ func (p *parser) parseUnion(node *node32) (err error)
 //@   requires p != nil && node != nil && wfPEG(p)
